@@ -120,8 +120,9 @@ def below_of(I, W, facts=None, view=None):
 # =============================================================================== call-site contracts
 class WalkAssumed(Contract):
     """TrackAnnotator._handle_update_track_ids - contract used at call sites (DESIGN 5.3).
-    The attribute part (tid', lid', frame) is PROVED of the real body in contracts/walk.py; the lookup part
-    (B1 re-established, maxima raised) is the bounded stand-in native/walk_bounded.py.
+    Both halves - the attribute part (tid', lid', frame) and the lookup part (B1 re-established, maxima raised) - are
+    PROVED of the real body in contracts/walk.py (leaf bookkeeping helpers: contracts/bookkeeping.py);
+    native/walk_bounded.py remains as a cross-check.
 
     requires  (P1) below start, an edge between two nodes carrying the old id leaves a non-dividing node
               (P2) below start, the old id does not reappear under a node with another id
@@ -201,6 +202,9 @@ class WalkAssumed(Contract):
             # start carried one lineage id, the lookup agrees with the graph afterwards
             for lbl, f in T.B1(v0, K, cL, "lin"):
                 ctx.oblige(f"{tag}/requires:{lbl}", IMP(upd_lin, f), kind="pre", props=("C06", "C01"))
+            ol = action.fields.get("old_lineage_id")
+            ctx.oblige(f"{tag}/requires:old-lineage-id-is-start's-lineage-id",
+                       IMP(upd_lin, (VNone if ol is None else to_z3(ol, Val)) == T.lid(v0, K, start)), kind="pre", props=("C06", "C01"))
             ctx.oblige(f"{tag}/requires:one-lineage-id-below-start",
                        IMP(upd_lin, forall([a_], IMP(bel(start, a_), T.lid(v0, K, a_) == T.lid(v0, K, start)))),
                        kind="pre", props=("C06", "C01"))
